@@ -10,7 +10,8 @@ def sources(mod):
     """A package with many imports, blank imports, values and injectors; sources parametrised by module path."""
     files = {}
     for i in range(NLIB):
-        files["l%d/l.go" % i] = "package l%d\n\ntype T struct{ N int }\n\nfunc New() (T, error) { return T{N: %d}, nil }\n\nvar Default = T{N: %d}\n" % (i, i, i)
+        files["l%d/l.go" % i] = ("package l%d\n\nimport \"github.com/google/wire\"\n\ntype T struct{ N int }\n\nfunc New() (T, error) { return T{N: %d}, nil }\n\nvar Default = T{N: %d}\n\n"
+                                 "// Vals holds the package's value: written in this file, not in the injector's\nvar Vals = wire.NewSet(wire.Value(Default))\n" % (i, i, i))
     for i in range(3):
         files["blank%d/b.go" % i] = "package blank%d\n\nvar X = %d\n" % (i, i)
     files["cfg/cfg.go"] = "package cfg\n\ntype Settings struct{ A int }\n\nfunc New() (Settings, error) { return Settings{A: 1}, nil }\n"
@@ -19,7 +20,8 @@ def sources(mod):
     inj = ["//go:build wireinject\n// +build wireinject\n\npackage app\n\nimport (\n" + blanks + imps + '\t"%s/cfg"\n\t"github.com/google/wire"\n)\n' % mod]
     for i in range(NLIB):
         inj.append("// Init%d builds the value of library %d.\n// It has a doc comment of two lines.\nfunc Init%d() (l%d.T, error) {\n\tpanic(wire.Build(l%d.New))\n}\n" % (i, i, i, i, i))
-    vals = ", ".join("wire.Value(l%d.Default)" % i for i in range(NLIB))
+    # the values of one injector are written in eight different files (every other one comes from its library's set)
+    vals = ", ".join(("wire.Value(l%d.Default)" if i % 2 else "l%d.Vals") % i for i in (4, 1, 6, 3, 0, 5, 2))
     fields = "".join("\tF%d l%d.T\n" % (i, i) for i in range(NLIB))
     inj.append("type All struct {\n" + fields + "}\n")
     inj.append('func InitAll() All {\n\tpanic(wire.Build(wire.Struct(new(All), "*"), %s))\n}\n' % vals)
